@@ -588,9 +588,15 @@ impl Conn {
     }
 
     pub async fn activate_session(&mut self, token: ExtensionObject) -> Recv {
+        let sig = self.client_signature();
+        self.activate_session_signed(token, sig).await
+    }
+
+    /// ActivateSession with a given client signature (a replayed request reuses the old one).
+    pub async fn activate_session_signed(&mut self, token: ExtensionObject, client_signature: SignatureData) -> Recv {
         let req: SupportedMessage = ActivateSessionRequest {
             request_header: self.header(),
-            client_signature: self.client_signature(),
+            client_signature,
             client_software_certificates: None,
             locale_ids: None,
             user_identity_token: token,
